@@ -37,6 +37,7 @@ import (
 	"github.com/hashicorp/consul/agent/structs"
 	"github.com/hashicorp/consul/api"
 	"github.com/hashicorp/consul/internal/verifkit"
+	kvm "github.com/hashicorp/consul/internal/verifkvm"
 	vs "github.com/hashicorp/consul/internal/verifstate"
 	memdb "github.com/hashicorp/go-memdb"
 	"pgregory.net/rapid"
@@ -845,7 +846,7 @@ func TestVerifC06Replay(t *testing.T) {
 	for _, path := range verifkit.ReplayFiles("C06") {
 		c := rec.NewCase()
 		c.Label("replay")
-		verifC06Run(t, c, feed(verifLoadOps(t, path)))
+		verifC06Run(t, c, feed(kvm.LoadOps(t, path)))
 		c.Done()
 	}
 }
